@@ -224,9 +224,10 @@ fn compile_filters(sync_spec: &SyncSpec) -> Result<Filters, String> {
             _ => return Err(format!("Invalid filter '{}': Must start with a '+' or '-'", f)),
         }
         let pattern = f.split_at(1).1.to_string();
-        // Wrap in ^...$ to make it match the whole string, otherwise it's too easy
-        // to make a mistake with filters that unintentionally match something else
-        let pattern = format!("^{pattern}$");
+        // Wrap in ^(?:...)$ to make it match the whole string, otherwise it's too easy
+        // to make a mistake with filters that unintentionally match something else.
+        // The non-capturing group keeps a top-level alternation (e.g. "build|dist") inside the anchors.
+        let pattern = format!("^(?:{pattern})$");
         patterns.push(pattern);
     }
     let regex_set = match RegexSet::new(patterns) {
